@@ -51,7 +51,7 @@ USER_FIELDS = ['status', 'privileged', 'country', 'avg_speed', 'uploads', 'share
 
 def R(i): return f'room{i}'
 def U(i): return f'user{i}'
-def T(i): return f'text{i}'
+def T(i): return '' if i == 0 else f'text{i}'      # text 0 is the EMPTY string (legal on the wire for every text field)
 def C(i): return f'c{i}'
 def P(i): return b'pic%d' % i
 
@@ -60,6 +60,8 @@ def _unid(s: Any, prefix: str):
     """inverse of R/U/T/C: the id, or the raw value when it is not one of ours"""
     if isinstance(s, bytes):
         s = s.decode('latin1')
+    if prefix == 'text' and s == '':
+        return 0
     if isinstance(s, str) and s.startswith(prefix) and s[len(prefix):].isdigit():
         return int(s[len(prefix):])
     return s
@@ -192,14 +194,33 @@ def _kind_class(kind: str) -> str:
 # running the real managers
 # --------------------------------------------------------------------------------------------
 
+LOCAL_OPS = ('track', 'untrack')      # the application's own calls: they must not change what the server announced
+
+
 class _Net:
     def __init__(self):
         self.sent = []
         self.server = object()
+        self.waiters = []               # (message class, fields, future): `wait_for_server_message` calls in flight
 
     async def send_server_messages(self, *messages):
         self.sent.extend(messages)
         return []
+
+    async def wait_for_server_message(self, message_class, fields=None, timeout=None):
+        import asyncio
+        fut = asyncio.get_running_loop().create_future()
+        self.waiters.append((message_class, dict(fields or {}), fut))
+        return await fut
+
+    def deliver(self, message):
+        """what Network.on_message_received does after the handlers ran: complete the matching waiters"""
+        for w in list(self.waiters):
+            cls, fields, fut = w
+            if isinstance(message, cls) and all(getattr(message, k, None) == v for k, v in fields.items()):
+                self.waiters.remove(w)
+                if not fut.done():
+                    fut.set_result(message)
 
 
 class _LogCatch(logging.Handler):
@@ -372,6 +393,12 @@ def _run_impl(case: dict) -> list:
                 for i in range(N_USERS):
                     held[i] = um.get_user_object(U(i))
                 o = {'err': 'ok', 'events': []}
+            elif op[0] in LOCAL_OPS:
+                from vlib import simloop as _sl
+                await (um.track_user if op[0] == 'track' else um.untrack_user)(U(op[1]))
+                await _sl.settle()
+                err = 'ok' if not catch.errors else catch.errors[0]
+                o = {'err': err, 'events': [e for e in events if not e['kind'].startswith('unknown-')]}
             else:
                 msg = _mk_message(op)
                 if KINDS[op[0]][0] == 'peer':
@@ -380,6 +407,13 @@ def _run_impl(case: dict) -> list:
                 else:
                     conn = server_conn
                 await bus.emit(MessageReceivedEvent(msg, conn))
+                if net.waiters:
+                    from vlib import simloop as _sl
+                    net.deliver(msg)
+                    await _sl.settle()
+                    if case.get('focus') == 'local':        # tracking-state events are not what this property is about
+                        events[:] = [e for e in events if not e['kind'].startswith('unknown-')]
+                        net.sent[:] = [m for m in net.sent if isinstance(m, PrivateChatMessageAck.Request)]
                 acks = [{'kind': 'ack', 'room': None, 'user': None, 'args': [m.chat_id]}
                         for m in net.sent if isinstance(m, PrivateChatMessageAck.Request)]
                 other = [type(m).__qualname__ for m in net.sent if not isinstance(m, PrivateChatMessageAck.Request)]
@@ -710,6 +744,16 @@ def _monitor(case: dict, obs: list) -> list[Violation]:
         where = f'op #{idx} {op[0]}'
         if op[0] == 'hold':
             held = True
+        elif op[0] in LOCAL_OPS:
+            # a local call announces nothing: every view must stay what the notifications so far imply
+            if o['err'] != 'ok':
+                vs.append(Violation(f'C19-handler-raised-{op[0]}', f'{where}: the call raised / logged an error', case,
+                                    observed=o['err']))
+                break
+            reports = [(e['kind'], e['room'], e['user']) for e in o['events'] if e['kind'] != 'ack']
+            if reports:
+                vs.append(Violation(f'C19-event-{op[0]}', f'{where}: a local call was reported as a server notification',
+                                    case, observed=reports, required=[]))
         else:
             if not _wellformed(op):
                 break                   # a half-applied notification implies nothing the property speaks about
@@ -870,7 +914,25 @@ FOCUS = {
 CAN_BE_BAD = ('userJoined', 'joinRoom', 'addUser', 'userStatus', 'peerInfo')
 
 
+def _gen_local_case(rng: random.Random) -> dict:
+    """monitor-only: the notifications about users and presence, interleaved with the application's own track / untrack
+    calls (the server's answer to a track request is an ordinary `addUser` notification, delivered to handlers and waiters)"""
+    kinds = FOCUS['users'] + FOCUS['presence'] + ['addUser', 'addUser', 'userStatus']
+    ops = []
+    for _ in range(rng.choice([3, 5, 8, 12])):
+        r = rng.random()
+        if r < 0.2:
+            ops.append(['track', rng.randrange(N_USERS)])
+        elif r < 0.4:
+            ops.append(['untrack', rng.randrange(N_USERS)])
+        else:
+            ops.append(_gen_op(rng, rng.choice(kinds)))
+    return {'me': 0, 'blocked_room': [], 'blocked_priv': [], 'ops': [['hold']] + ops[:MAX_LEN], 'focus': 'local', 'model': False}
+
+
 def _gen_case(rng: random.Random) -> dict:
+    if rng.random() < 0.08:
+        return _gen_local_case(rng)
     focus = rng.choice(['any', 'any', 'any', 'presence', 'private', 'private', 'tickers', 'users', 'chat', 'malformed'])
     kinds = FOCUS['any' if focus == 'malformed' else focus]
     n = rng.choice([1, 2, 3, 5, 8, 12, 12, rng.randint(1, MAX_LEN)])
@@ -931,6 +993,9 @@ def _nontrivial(case: dict) -> bool:
         k = op[0]
         if k in NO_TARGET:
             continue
+        if k in LOCAL_OPS:
+            by_user.setdefault(op[1], set()).add(k)
+            continue
         if k == 'roomList':
             for r in set(op[1]) | set(op[2]) | set(op[3]):
                 by_room.setdefault(r, set()).add(k)
@@ -981,7 +1046,7 @@ class C19(Property):
         hit: dict = {}
         for c in cases:
             for op in c['ops']:
-                if op[0] != 'hold':
+                if op[0] != 'hold' and op[0] not in LOCAL_OPS:
                     hit[_kind_class(op[0])] = hit.get(_kind_class(op[0]), 0) + 1
         for cls in sorted((room_h | user_h) - known):
             res.disagreements.append(Disagreement(None, f'handler registered for {cls}', 'no model of this handler',
@@ -1008,7 +1073,7 @@ class C19(Property):
             if model_ok:
                 lines, spans = [], []
                 for c in batch:
-                    ls = _model_lines(c)
+                    ls = _model_lines(c) if c.get('model', True) else []
                     spans.append((len(lines), len(ls)))
                     lines += ls
                 out = common.run_driver(self.driver_file, lines)
@@ -1026,7 +1091,7 @@ class C19(Property):
                     res.count('cases with a handler exception')
                 if _nontrivial(c):
                     res.nontrivial_keys.add(common.sha([c['blocked_room'], c['blocked_priv'], c['ops']]))
-                if model is not None:
+                if model is not None and c.get('model', True):
                     res.traces_validated += 1
                     il = _impl_lines(c, obs)
                     if model[i] != il and len(res.disagreements) < 2000:
@@ -1036,7 +1101,7 @@ class C19(Property):
                             f'line #{k} {c["ops"][k - 1] if 0 < k <= len(c["ops"]) else ""}'))
                 if len(res.violations) < 2000:
                     res.violations += _monitor(c, obs)
-                if len(res.samples) < 3 and 3 <= len(c['ops']) <= 6 and c['focus'] != 'witness':
+                if len(res.samples) < 3 and 3 <= len(c['ops']) <= 6 and c['focus'] not in ('witness', 'local'):
                     res.samples.append({'case': c, 'impl': _impl_lines(c, obs)[1:]})
         return res
 
